@@ -401,6 +401,8 @@ inductive MacroErr
   | parserPanic (site : String)
   deriving DecidableEq, Repr
 
+deriving instance DecidableEq for Except
+
 /-- src: lib.rs:parse_str_literal, the `loop` after the opening quote; the accumulator is `string`
 (reversed).  Everything after the closing quote is ignored (`break`). -/
 def unescapeGo : List Char → List Char → Except MacroErr (List Char)
